@@ -415,7 +415,11 @@ func genPure(r *rng.R, n int) []string {
 			salt := rng.Pick(r, []string{"", "s", "AB12"})
 			add("hash %s O:%s,%s", E(salt), E(e1), E(e2))
 			add("validvd O:%s,%s =1,=137", E(e1), E(e2))
-			switch r.N(5) {
+			switch r.N(6) {
+			case 5:
+				// the same entries with a blank appended to the last one: another string, hence another commitment
+				add("hash %s O:%s,%s", E(salt), E(e1), E(e2+" "))
+				add("validvd O:%s,%s =1,=137", E(e1), E(e2+" "))
 			case 3:
 				// the two entries glued into one string: not an entry, must not be an acceptable opening
 				add("hash %s O:%s", E(salt), E(e1+e2))
